@@ -105,6 +105,10 @@ impl Scenario {
         // whether a block is accepted must be a function of the block and the state it is applied to
         let at_block = |l: &Vec<String>| l.get(k.saturating_sub(1)).map(|x| x.starts_with("apply_block")).unwrap_or(false);
         if at_block(&self.log) || at_block(&again.log) { self.viol("C06", what.clone()); }
+        // the outcome of a batch must be a function of the state and the batch: anything an earlier (rejected, discarded
+        // or re-executed) call left behind outside the state shows up here
+        let at_batch = |l: &Vec<String>| l.get(k.saturating_sub(1)).map(|x| x.starts_with("batch")).unwrap_or(false);
+        if at_batch(&self.log) || at_batch(&again.log) { self.viol("C02", what.clone()); }
         self.viol("C04", what);
     }
     pub fn viol(&mut self, prop: &str, what: String) { let st = self.steps.len(); self.violates.push((st, prop.to_string(), what)); }
@@ -2129,6 +2133,102 @@ pub fn directed(r: &mut Rng) -> Vec<Scenario> {
         }
         sc.block_end(None);
         sc.block_end(None);
+        out.push(sc);
+    }
+    // a covenant that reads the last header (a time lock: last_header.height >= 2) is given the header of the
+    // previous block - not of the block being built: the spend is tried in every block around the boundary
+    {
+        let mut sc = base("d_height_lock_boundary", r, NetID::Custom02, 1000);
+        let at = sc.at();
+        sc.fixed_change = Some(at);
+        let lock = sc.addr_of(|k| matches!(k, CovKind::HeightLock(2)));
+        let mut f = Transaction::new(TxKind::Faucet);
+        f.outputs = (0..7).map(|_| sc.cd(lock, 1 << 40, Denom::Mel)).collect();
+        let f = sc.finish_tx(r, f, &[], 0, 0);
+        sc.op_batch(&[f.clone()]);
+        let fc = |i: u8| (CoinID::new(f.hash_nosigs(), i), CoinDataHeight { coin_data: f.outputs[i as usize].clone(), height: BlockHeight(0) });
+        for i in 0..6u8 {
+            let h = sc.ustate().verif_height().0;
+            let t = sc.mk(r, TxKind::Normal, &[fc(i)], vec![sc.cd(at, 1 << 30, Denom::Mel)], vec![i]);
+            let code = sc.op_batch(&[t]);
+            // the last header of a block at height h is the header of height h - 1 (at height 0: of the state itself)
+            let allowed = h.saturating_sub(1) >= 2;
+            if code == 0 && !allowed { sc.viol("C04", format!("a coin locked until the last header's height is 2 was spent in block {}: its covenant was evaluated against another header than the previous block's", h)); }
+            if code != 0 && allowed { sc.viol("C04", format!("a coin locked until the last header's height is 2 could not be spent in block {} ({})", h, code)); }
+            sc.block_end(if i % 2 == 0 { None } else { Some(ProposerAction { fee_multiplier_delta: 0, reward_dest: at }) });
+        }
+        out.push(sc);
+    }
+    // a rejected batch, a discarded working copy and another fork leave no trace: a transaction whose signed twin
+    // was validated there is still rejected when it comes without its signature (and the signed one still accepted)
+    {
+        let mut sc = base("d_rejected_batch_leaves_no_trace", r, NetID::Custom02, 1000);
+        let signed = sc.addr_of(|k| matches!(k, CovKind::SigNew(0)));
+        let at = sc.at();
+        sc.fixed_change = Some(at);
+        let mut f = Transaction::new(TxKind::Faucet);
+        f.outputs = vec![sc.cd(signed, 1 << 40, Denom::Mel), sc.cd(signed, 1 << 40, Denom::Mel), sc.cd(signed, 1 << 40, Denom::Mel)];
+        let f = sc.finish_tx(r, f, &[], 0, 0);
+        sc.op_batch(&[f.clone()]);
+        sc.block_end(None);
+        let fc = |i: u8| (CoinID::new(f.hash_nosigs(), i), CoinDataHeight { coin_data: f.outputs[i as usize].clone(), height: BlockHeight(0) });
+        let strip = |t: &Transaction| { let mut u = t.clone(); u.sigs = vec![]; u };
+        let garble = |t: &Transaction| { let mut u = t.clone(); for sg in u.sigs.iter_mut() { let mut v = sg.to_vec(); if !v.is_empty() { v[7] ^= 0x20; } *sg = Bytes::from(v); } u };
+        // (a) the signed transaction is validated inside a batch that is rejected for another member
+        let t0 = sc.mk(r, TxKind::Normal, &[fc(0)], vec![sc.cd(at, 1 << 30, Denom::Mel)], b"a".to_vec());
+        let mut bad = sc.mk(r, TxKind::Normal, &[fc(1)], vec![sc.cd(at, 1 << 30, Denom::Mel)], b"b".to_vec());
+        bad.fee = CoinValue(0);
+        sc.op_batch(&[t0.clone(), bad]);
+        for (what, u) in [("without its signatures", strip(&t0)), ("with corrupted signatures", garble(&t0))] {
+            if sc.op_batch(&[u]) == 0 {
+                for p in ["C02", "C04"] { sc.viol(p, format!("a transaction {} was accepted after its signed twin had been validated in a batch that was rejected: the rejected batch left a trace", what)); }
+            }
+        }
+        // (b) ... on a working copy that is thrown away (a mempool check) and on a sibling fork
+        let t1 = sc.mk(r, TxKind::Normal, &[fc(1)], vec![sc.cd(at, 1 << 30, Denom::Mel)], b"c".to_vec());
+        { let mut copy = sc.ustate().clone(); let _ = catch_unwind(AssertUnwindSafe(|| copy.apply_tx_batch(&[t1.clone()]))); }
+        if sc.op_batch(&[strip(&t1)]) == 0 {
+            for p in ["C02", "C04"] { sc.viol(p, "a transaction without its signatures was accepted after its signed twin had been applied to a discarded copy of the state".into()); }
+        }
+        if sc.op_batch(&[t0.clone()]) != 0 { sc.viol("C02", "the signed transaction is refused after the rejected batch".into()); }
+        sc.block_end(None);
+        // (c) ... in an earlier block's rejected batch, then after a restart
+        let t2 = sc.mk(r, TxKind::Normal, &[fc(2)], vec![sc.cd(at, 1 << 30, Denom::Mel)], b"d".to_vec());
+        let mut bad2 = t2.clone(); bad2.data = Bytes::from(b"e".to_vec()); bad2.inputs.push(fc(0).0);
+        sc.op_batch(&[t2.clone(), bad2]);
+        sc.op_seal(None); sc.op_restart(); sc.op_next();
+        if sc.op_batch(&[strip(&t2)]) == 0 {
+            for p in ["C02", "C04"] { sc.viol(p, "a transaction without its signatures was accepted in a later block after its signed twin had been validated in a rejected batch".into()); }
+        }
+        sc.op_batch(&[t2]);
+        sc.block_end(None);
+        out.push(sc);
+    }
+    // swaps of one pool and one block that pay in exactly the same amount on opposite sides (and twice on one side):
+    // each is paid from the other side at the one price of the block (the MEL/ERG pool: neither the peg nor the
+    // subsidy touches it on this network, so the flow reflection judges it)
+    {
+        let mut sc = base("d_swaps_equal_amounts_opposite_sides", r, NetID::Custom02, 1000);
+        sc.block_end(None);
+        let at = sc.at();
+        sc.fixed_change = Some(at);
+        let f = sc.fund(r, &[(1 << 42, Denom::Mel), (1 << 42, Denom::Mel), (1 << 42, Denom::Mel), (1 << 42, Denom::Mel), (1 << 42, Denom::Mel), (1 << 42, Denom::Mel), (1 << 42, Denom::Mel), (1 << 40, Denom::Erg), (1 << 40, Denom::Erg), (1 << 40, Denom::Erg)]);
+        sc.op_batch(&[f.clone()]);
+        sc.block_end(None);
+        let fc = |i: u8| (CoinID::new(f.hash_nosigs(), i), CoinDataHeight { coin_data: f.outputs[i as usize].clone(), height: BlockHeight(1) });
+        let key = PoolKey::new(Denom::Mel, Denom::Erg).to_bytes().to_vec();
+        // move the price away from 1:1 first
+        let t = sc.mk(r, TxKind::Swap, &[fc(0)], vec![sc.cd(at, 700_000_000, Denom::Mel)], key.clone());
+        sc.op_batch(&[t]);
+        sc.block_end(None);
+        for (round, amt) in [(0u8, 50_000u128), (1, 77_777_777)] {
+            let mel_side = |sc: &mut Scenario, r: &mut Rng, i: u8, n: u8| { let mut o = sc.cd(at, amt, Denom::Mel); o.additional_data = Bytes::from(vec![n]); sc.mk(r, TxKind::Swap, &[fc(i)], vec![o], key.clone()) };
+            let erg_side = |sc: &mut Scenario, r: &mut Rng, i: u8, j: u8, n: u8| { let mut o = sc.cd(at, amt, Denom::Erg); o.additional_data = Bytes::from(vec![n]); sc.mk(r, TxKind::Swap, &[fc(i), fc(j)], vec![o, sc.cd(at, (1 << 40) - amt, Denom::Erg)], key.clone()) };
+            let batch = if round == 0 { vec![mel_side(&mut sc, r, 1, 1), erg_side(&mut sc, r, 2, 7, 2)] }
+                        else { vec![erg_side(&mut sc, r, 3, 8, 3), mel_side(&mut sc, r, 4, 4), mel_side(&mut sc, r, 5, 5), erg_side(&mut sc, r, 6, 9, 6)] };
+            sc.op_batch(&batch);
+            sc.block_end(None);
+        }
         out.push(sc);
     }
     // faucets of unusual shape are faucets too: no output at all (only the fee is minted), one burnt output, a
